@@ -243,6 +243,13 @@ class CoreOracle(Oracle):
                 w.report("default|modified-not-the-current-time", "modified=%r simulated now=%r" % (cp.modified, now), CLAUSES["default"])
             if deck.prs.core_properties is not cp:
                 w.report("default|created-twice", "", CLAUSES["default"])
+            # a freshly created default part carries nothing else (nothing leaks in from another document or run)
+            for a_ in STR_PROPS:
+                if a_ not in ("title", "last_modified_by") and getattr(cp, a_) != "":
+                    w.report("default|unset-string-property-not-empty", "%s=%r" % (a_, getattr(cp, a_)), CLAUSES["default"])
+            for a_ in ("created", "last_printed"):
+                if getattr(cp, a_) is not None:
+                    w.report("default|unset-date-property-not-None", "%s=%r" % (a_, getattr(cp, a_)), CLAUSES["default"])
             # the durable image holds no core part, so nothing assigned earlier survived: the model restarts from
             # the freshly created default part
             m["vals"] = {}
@@ -360,10 +367,12 @@ def gen_trace(seed: int, tier: str) -> dict:
     r = S("config")
     n = r.randint(6, 25) if tier == "quick" else r.randint(10, 60)
     events, sw = common.gen_history(seed, n_events=n, families=["c18"], always=("c18",), ckpt=0.08, reopen=0.08, restart=0.04,
-                                    observe=0.0, jump=0.12, fork=0.0, warmup=False)
+                                    observe=0.0, jump=0.12, fork=0.06, warmup=False)
     rs = S("start")
     arm = rs.choice(["default", "default", "nocore", "nocore", "stored", "stored", "corpus"])
-    cfg = {"arm": arm, "clock_start": rs.choice([seams.CLOCK_EPOCH, 946684800.0, 4102444800.0, 400000000.0])}
+    cfg = {"arm": arm, "clock_start": rs.choice([seams.CLOCK_EPOCH, 946684800.0, 4102444800.0, 400000000.0, 1784116800.0, 1767225600.0]),
+           # environment knob: the process time zone (UTC, central Europe with DST, US east with DST, India +05:30, NZ southern DST)
+           "tz": rs.choice(["UTC", "UTC", "CET-1CEST,M3.5.0,M10.5.0/3", "EST5EDT,M3.2.0,M11.1.0", "IST-5:30", "NZST-12NZDT,M9.5.0,M4.1.0/3"])}
     if arm == "nocore":
         start = {"deck": rs.choice(["t-no-core-props.pptx", "default.pptx"])}
         if start["deck"] == "default.pptx":
@@ -426,4 +435,15 @@ def pinned_traces(tier):
                     "start": [{"deck": "default.pptx", "xform": [{"kind": "core_xml", "fields": fields}], "c18_expect": fields}],
                     "events": [{"op": "c18.read_all"}]})
         k += 1
+    for tz in ("CET-1CEST,M3.5.0,M10.5.0/3", "EST5EDT,M3.2.0,M11.1.0", "NZST-12NZDT,M9.5.0,M4.1.0/3", "IST-5:30"):
+        for start_t, lbl in ((1784116800.0, "jul"), (1767225600.0, "jan"), (1798761540.0, "dec31-2359")):
+            out.append({"property": ID, "seed": "default-part-tz-%s-%s" % (tz.split(",")[0], lbl), "tier": "pinned",
+                        "config": {"pinned": True, "clock_start": start_t, "tz": tz}, "start": [{"deck": "t-no-core-props.pptx"}],
+                        "events": [{"op": "c18.read_all"}, {"op": "checkpoint", "sink": "seekable"}, {"op": "restart"}]})
+    out.append({"property": ID, "seed": "two-coreless-decks", "tier": "pinned", "config": {"pinned": True}, "start": [{"deck": "t-no-core-props.pptx"}],
+                "events": [{"op": "c18.set", "prop": "author", "value": "Alice", "kind": "string"}, {"op": "c18.set", "prop": "revision", "value": 7, "kind": "revision"},
+                           {"op": "restart"},   # no checkpoint: the image still has no core part; a second default part is created in this process
+                           {"op": "c18.read_all"}, {"op": "c18.set", "prop": "title", "value": "Deck A", "kind": "string"},
+                           {"op": "fork", "sink": "seekable"}, {"op": "c18.set", "prop": "title", "value": "Deck B", "kind": "string", "deck": 1},
+                           {"op": "c18.read_all", "deck": 0}, {"op": "c18.read_all", "deck": 1}, {"op": "checkpoint", "sink": "seekable", "deck": 0}, {"op": "restart", "deck": 0}]})
     return out
